@@ -1004,7 +1004,11 @@ func vfKindFixup(g *vfG, kind string, t reflect.Type, m map[string]interface{}) 
 	case "Kafka", "KafkaMQTT":
 		// hermetic variants only: no reachable broker exists in the sandbox
 		if b, ok := m["backend"].([]interface{}); ok && len(b) > 0 {
-			m["backend"] = []interface{}{"127.0.0.1:1"}
+			if g.chance("backend", "unreachable-broker", 4) {
+				m["backend"] = []interface{}{"127.0.0.1:1"} // ~1 s of sarama retries, rarely
+			} else {
+				m["backend"] = []interface{}{}
+			}
 		}
 		if _, ok := m["topic"]; !ok {
 			m["topic"] = map[string]interface{}{"default": "t1"}
